@@ -65,6 +65,16 @@ pub struct TestSpec {
     /// the execution ends without an exit code
     #[serde(default)]
     pub kill_self: u8,
+    /// `wait: {timeout: <wait_ms>, path: <wait_path>}`: the wait ends as soon as the path exists
+    /// below the temporary directory of the document (`$TMPDIR` of the test cases)
+    #[serde(default)]
+    pub wait_path: Option<String>,
+    /// an earlier test case creates that path (before, or a fraction of a second into the wait)
+    #[serde(default)]
+    pub wait_path_appears: bool,
+    /// additional shell text right after the marker (e.g. `touch "$TMPDIR/ready"`)
+    #[serde(default)]
+    pub extra: String,
 }
 
 impl TestSpec {
@@ -83,6 +93,9 @@ impl TestSpec {
             trap_term: 0,
             pad: 0,
             kill_self: 0,
+            wait_path: None,
+            wait_path_appears: false,
+            extra: String::new(),
         }
     }
 }
@@ -673,7 +686,13 @@ fn model_doc(run: &RunSpec, doc: &DocSpec) -> Result<DocModel, Undecided> {
             }
             // `wait`: scrut sleeps before it starts the command, after the limit for the command
             // has been fixed; the sleep uses up document time
-            if let Some(w) = t.wait_ms {
+            if t.wait_path.is_some() && t.wait_path_appears {
+                // the path is there: scrut goes on at once, the wait costs (next to) nothing.
+                // Decided only under limits that instantaneous commands cannot exceed
+                if script || t.timeout_ms.is_some() || t.sleep_ms > 0 || limit.is_some_and(|l| l < 20_000) {
+                    return Err("wait for an existing path under a short limit / in script mode".into());
+                }
+            } else if let Some(w) = t.wait_ms {
                 if script || t.timeout_ms.is_some() || t.sleep_ms > 0 {
                     return Err("wait combined with script mode / per-test timeout / sleep".into());
                 }
